@@ -31,14 +31,17 @@ RULE = ('schedule strings are generated from a structured meaning (unit in all 7
         'streams: ~80 malformed strings (ValueError and nothing else), zero intervals, the docstring examples, '
         'extreme magnitudes.  A schedule case is non-trivial when at least one occurrence is returned; a malformed '
         'case when the parser is reached.  thorough adds every unit x multiple 1..48 with fixed slot lists.')
-TRUSTED = ['calendar arithmetic is abstract in the model (round_down, next, slots are Section variables): '
-           'functions.date.DATEADD/DATE month and day roll-over, datetime/timedelta wall-clock addition, isoweekday, '
-           'tz-aware comparison; their results enter the correspondence check as tables and the premise of the '
-           'theorems is monitored on those tables',
-           'the regex interval/slot parser (_parse_interval, _parse_slot) is an oracle: checked against the '
-           'structured meaning of generated strings and on malformed strings, not modelled',
-           'Model/Schedule.v is hand-written; tied to Schedule.series by the differential check on every run '
-           '(same outputs and same number of outer-loop passes)',
+TRUSTED = ['sch2v translator (harness/sch2v.py, sch2v_stmt.py, sch2v_bind.py): functions/schedule.py -> Gallina; validated '
+           'on every run by evaluating each generated function under concrete primitives (Lib/SchedDiff.v) against the '
+           'running Python function: Schedule.series on tables computed by the real code, Delta.__init__/add_interval/'
+           'add_to on recording mocks of datetime/timedelta/DATEADD, _parse_interval and _parse_slot (with the six slot '
+           'parsers) on the real regex matches',
+           'opaque primitives (record `prims` of Model/ScheduleCode.v): functions.date.DATEADD/DTIME, datetime.combine / '
+           'timetz / + timedelta, the timedelta constructor, _round_down_to_unit, str.lower/strip/split, int(), '
+           '_INTERVAL_RE.match and _SLOT_RE.match with m.group; datetime comparison as a strict total order',
+           'pinned by AST equality (not translated): the pattern of _INTERVAL_RE (two mandatory groups), the body of '
+           'SCHEDULE (Schedule(schedule).series(start or NOW(), end, count=count)) and Schedule.__init__; error messages '
+           'of raise statements are not modelled; a datetime is always true in `end_dtime and DTIME(end_dtime)`',
            "harness reference arithmetic (ref_add/ref_round in harness/props/c35.py) for the property's oracle"]
 ASSUMPTIONS = ['time is a strict total order decided by datetime.__lt__ (same tzinfo object: wall-clock order); '
                'monitored: Python order = order of the Z timestamps on every compared pair',
@@ -46,18 +49,23 @@ ASSUMPTIONS = ['time is a strict total order decided by datetime.__lt__ (same tz
                'slot_1 t < ... < slot_n t < slot_1 (next t); base <= start; for the fuel bound start <= slot_1 of the '
                'second period; for completeness below the base every slot < next period start.  Each is monitored on '
                'the tables computed by the real code for every in-premise case',
+               'hypotheses of C35_code_parse_slot_errors (monitored on the implementation): int() of a str raises only '
+               'ValueError; timedelta(unit=n) raises only OverflowError for weeks..seconds; a slot-type group of '
+               '_SLOT_RE that took part implies the groups its parser reads',
                'count is an int; start/end are datetimes (or dates) in one time zone']
-TECHNIQUE = ('Coq proof over a hand-written model of the generator loop with abstract calendar functions + differential '
-             'cases on tables computed by the real code + hypothesis monitors + independent brute-force oracle')
-LEVEL_TEXT = ('Kernel-checked theorems for every strict total order of time, every next/slot/round_down functions '
-              'satisfying the premise, every start, end, count and fuel: the generator returns exactly the first count '
-              'scheduled instants within [start, end] (series_eq_spec, exactly_the_first_count), strictly increasing, '
-              '[] for count <= 0, the stop-after-end shortcut is sound, and (fuel - k0) * #slots > max count 0 passes '
-              'suffice; instantiated for Z with any positive fixed interval.  C35_refuted_zero_interval: with a zero '
-              'interval the model never makes progress, as the real generator.')
-LEVEL_NOTE = ('Kernel strength: calendar arithmetic and the string parser are oracles (tables + monitors + reference '
-              'enumeration), not modelled.  Known findings: zero interval accepted (non-termination / repeated '
-              'instant); two docstring examples are rejected by the parser.')
+TECHNIQUE = ('Coq proofs over code translated from functions/schedule.py on every run (Schedule.series, Delta methods, '
+             '_parse_interval, _parse_slot, slot parsers, tables) with pointwise bridging lemmas to a hand model + '
+             'translator differential + hypothesis monitors + independent brute-force oracle')
+LEVEL_TEXT = ('Kernel-checked theorems for every strict total order of time and every calendar/regex primitives: the '
+              'generated Schedule.series equals the generator model (C35_bridge_*), which returns exactly the first count '
+              'scheduled instants within [start, end] under the premise (C35_code_series_eq_spec, strictly increasing, '
+              'fuel bound, [] for count <= 0); Delta.add_to applies months then the timedelta; an accepted interval is a '
+              'positive multiple of a known unit (C35_code_parse_interval_positive: no zero interval reaches series); '
+              '_parse_interval raises only ValueError and _parse_slot only ValueError or timedelta\'s OverflowError.')
+LEVEL_NOTE = ('Kernel strength: calendar arithmetic, string primitives and the two regular expressions are opaque '
+              'parameters (tables + monitors + reference enumeration).  The three earlier findings (zero interval, two '
+              'rejected docstring examples) are fixed in /repo (a74e0d8, 312eef7); observation: extreme magnitudes raise '
+              'OverflowError from timedelta/date, now explicit in C35_code_parse_slot_errors.')
 
 EPOCH = datetime.datetime(1970, 1, 1)
 US = datetime.timedelta(microseconds=1)
@@ -814,7 +822,7 @@ def zls(ns):
 
 def correspond(ctx):
   cases = all_cases(ctx)
-  want = ctx.n(700, 6000)
+  want = ctx.n(450, 6000)
   sched = [c for c in cases if c['stream'] == 'schedule' and c.get('end_tz') == c.get('tz')]
   stride = max(1, len(sched) // want)
   picked = sched[::stride] + [c for c in cases if c['stream'] in ('zero-interval', 'lenient', 'docexample')]
@@ -868,18 +876,20 @@ def correspond(ctx):
   ctx.log('correspondence: %d cases (%d monitored), %d differ' % (len(coq), nmon, len(bad)))
   # differential validation of the translator on the other generated functions
   schedule = impl()
-  sym = c35diff.sym_cases(schedule, ctx.rng, ctx.n(150, 1500))
+  sym = c35diff.sym_cases(schedule, ctx.rng, ctx.n(100, 1500))
   intervals, slots = c35diff.parser_inputs(schedule, ctx.rng, [c['spec'] for c in cases])
-  intervals = list(dict.fromkeys(intervals))[:ctx.n(300, 5000)]
-  slots = list(dict.fromkeys(slots))[:ctx.n(400, 7000)]
+  intervals = list(dict.fromkeys(intervals))[:ctx.n(200, 5000)]
+  slots = list(dict.fromkeys(slots))[:ctx.n(250, 7000)]
   icases = [c35diff.interval_case(schedule, x) for x in intervals]
   scases = [c35diff.slot_case(schedule, t, u) for t, u in slots]
-  for name, chk, cs, src in (('sym', 'sym_check', sym, None), ('interval', 'interval_check', icases, intervals),
-                             ('slot', 'slot_check', scases, slots)):
-    bad = ctx.run_cases(name, c35diff.IMPORTS, chk, cs, shard=400, extra_defs=c35diff.DEFS)
-    for i in bad[:5]:
-      ctx.broken('translation:the generated %s code differs from the running function' % name,
-                 'input %r; case %s' % (src[i] if src else None, cs[i][:600]))
+  allc = [('Delta methods', 'AY (%s)' % c, None) for c in sym] + \
+         [('_parse_interval', 'AI (%s)' % c, x) for c, x in zip(icases, intervals)] + \
+         [('_parse_slot', 'AS (%s)' % c, x) for c, x in zip(scases, slots)]
+  bad = ctx.run_cases('translator', c35diff.IMPORTS, 'any_check', [c[1] for c in allc], shard=150,
+                      extra_defs=c35diff.DEFS)
+  for i in bad[:5]:
+    ctx.broken('translation:the generated code of %s differs from the running function' % allc[i][0],
+               'input %r; case %s' % (allc[i][2], allc[i][1][:600]))
   extra_parts = ['Jan-15', '1/15', '/15', 'Mon', '10am', '1:30pm', '15:45', ':45', '+1d', '+15w', '+1x', 'x-1', '/', ':5',
                  '9:5', '+d', 'am', '12AM', 'FEB-3', '0/0', '+0S', 'a-1', '1-1', '+1', 'pm', '9pm', '09:00am']
   nmonp, badm = c35diff.monitor_parse_hypotheses(
